@@ -65,37 +65,50 @@ def entry_point_obligations(rep: Report):
     else:
         rep.fail("C12.entry.rule", "frame", "both entry points parse the start rule `file` for module input", "frames", f"parse_file: {pfr}; parse_string: {psr}",
                  witness={"parse_file": pfr, "parse_string": psr})
-    # the line source of parse_file: the builtin open(path, encoding='utf-8') -- text mode, default newline handling -- and its readline.
-    # Any other way of getting at the file (tokenize.open, io/codecs.open, Path.open, a newline= / errors= option, reading bytes) makes the
-    # decoded lines depend on the file's own content (BOM, coding cookie) or on options parse_string has no counterpart for.
+    # the line source of parse_file: a text-mode open of `path` with encoding='utf-8' and default newline handling -- the builtin open(), io.open()
+    # or Path.open() -- read through readline.  tokenize.open / codecs.open / a newline= or errors= option / reading bytes make the decoded lines
+    # depend on the file's own content (BOM, coding cookie) or on options parse_string has no counterpart for.
+    def utf8_text_open(ce):
+        if not isinstance(ce, ast.Call):
+            return False
+        f = ce.func
+        if isinstance(f, ast.Name):
+            callee_ok, npos = f.id == "open", (1, 2)
+        elif isinstance(f, ast.Attribute) and f.attr == "open":
+            base = ast.unparse(f.value)
+            callee_ok, npos = base.split(".")[0] not in ("tokenize", "py_tokenize", "codecs", "gzip", "bz2", "lzma", "os"), ((1, 2) if base == "io" else (0, 1))
+        else:
+            return False
+        kws = {k.arg: k.value for k in ce.keywords}
+        mode = kws.get("mode") or (ce.args[npos[1] - 1] if len(ce.args) == npos[1] else None)
+        return (callee_ok and npos[0] <= len(ce.args) <= npos[1] and set(kws) <= {"encoding", "mode"} and isinstance(kws.get("encoding"), ast.Constant)
+                and str(kws["encoding"].value).lower().replace("-", "").replace("_", "") == "utf8"
+                and (mode is None or (isinstance(mode, ast.Constant) and mode.value in ("r", "rt"))))
     withs = [n for n in ast.walk(fns["parse_file"]) if isinstance(n, ast.With)]
-    src_ok, why = False, "no `with open(...) as f` in parse_file"
+    src_ok, why = False, "no `with <open(...)> as f` in parse_file"
     if len(withs) == 1 and len(withs[0].items) == 1:
         ce, var = withs[0].items[0].context_expr, withs[0].items[0].optional_vars
-        kws = {k.arg: k.value for k in ce.keywords} if isinstance(ce, ast.Call) else {}
-        mode = ce.args[1] if isinstance(ce, ast.Call) and len(ce.args) > 1 else kws.get("mode")
-        src_ok = (isinstance(ce, ast.Call) and isinstance(ce.func, ast.Name) and ce.func.id == "open" and 1 <= len(ce.args) <= 2
-                  and set(kws) <= {"encoding", "mode"} and isinstance(kws.get("encoding"), ast.Constant)
-                  and str(kws["encoding"].value).lower().replace("-", "").replace("_", "") == "utf8"
-                  and (mode is None or (isinstance(mode, ast.Constant) and mode.value in ("r", "rt")))
-                  and isinstance(var, ast.Name))
+        src_ok = utf8_text_open(ce) and isinstance(var, ast.Name) and "path" in ast.unparse(ce)
         why = f"`{ast.unparse(ce)}`"
         if src_ok:
             gts = [n for n in ast.walk(withs[0]) if isinstance(n, ast.Call) and (getattr(n.func, "id", None) or getattr(n.func, "attr", None)) == "generate_tokens"]
             src_ok = len(gts) == 1 and len(gts[0].args) == 1 and ast.unparse(gts[0].args[0]) == f"{var.id}.readline"
             why = f"generate_tokens is fed `{ast.unparse(gts[0].args[0]) if gts and gts[0].args else '?'}`, expected `{var.id}.readline`"
-    dsc = "parse_file reads its lines from the builtin open(path, encoding='utf-8') (text mode, default newline handling) through readline: the decoded text depends neither on the locale nor on a BOM / coding cookie in the file"
+    dsc = ("parse_file reads its lines through readline from a text-mode open of the path with encoding='utf-8' and default newline handling: the decoded text "
+           "depends neither on the locale nor on a BOM / coding cookie in the file")
     if src_ok:
         rep.ok("C12.entry.linesource", "frame", dsc, "frames", function=f"{rel}:Parser.parse_file")
     else:
         rep.fail("C12.entry.linesource", "frame", dsc, "frames", why, witness={"found": why}, function=f"{rel}:Parser.parse_file")
-    # no other file access on the parse path (attribute-style opens and whole-file reads are not covered by the encoding obligation below)
+    # no other file access on the parse path (whole-file reads, byte reads, encoding detection, opens that are not UTF-8 text opens)
     for r2 in ("peg_parser/subheader.py", "peg_parser/tokenizer.py", "peg_parser/tokenize.py"):
         t = ast.parse(open(os.path.join(REPO, r2), encoding="utf-8").read())
         bad = [f"{ast.unparse(n)[:80]} (line {n.lineno})" for n in ast.walk(t) if isinstance(n, ast.Call) and isinstance(n.func, ast.Attribute)
-               and n.func.attr in ("open", "read_text", "read_bytes", "fdopen", "detect_encoding")]
+               and (n.func.attr in ("read_bytes", "fdopen", "detect_encoding") or (n.func.attr == "open" and not utf8_text_open(n))
+                    or (n.func.attr == "read_text" and not any(k.arg == "encoding" and isinstance(k.value, ast.Constant)
+                                                                and str(k.value.value).lower().replace("-", "") == "utf8" for k in n.keywords)))]
         oid = f"C12.ambient.{os.path.basename(r2)}.other_file_access"
-        dsc = f"{r2}: no file is opened or read other than through the builtin open() (whose encoding is an obligation of its own)"
+        dsc = f"{r2}: files are read only as UTF-8 text (no byte reads, no encoding detection, no attribute-style open without encoding='utf-8')"
         if bad:
             rep.fail(oid, "ambient", dsc, "frames", "; ".join(bad[:3]), witness=bad[:5], function=f"{r2}:<module>")
         else:
